@@ -51,7 +51,7 @@ def parse(s):
     return ('ok', [F(t) for t in body.split()])
 
 names = ['all', 'max', 'min', 'ncyc_origin', 'ncyc_peak', 'delta', 'pseudo', 'delta_cleaned', 'pseudo_cleaned']
-nbad = 0; nerr = 0; ncmp = 0
+nbad = 0; nerr = 0; ncmp = 0; ndtype = 0
 for v, line in zip(inputs, lines):
     va = [float(x) for x in v]
     assert all(F(a) == b for a, b in zip(va, v))
@@ -67,6 +67,24 @@ for v, line in zip(inputs, lines):
         py(lambda: pc.determine_peak_only_delta_series_4_cleaned_data(np.array(va))),
         py(lambda: pc._determine_peak_only_series_4_cleaned_data(np.array(va))),
     ]
+    # integer dtype / plain list inputs must give the same outcome as float arrays (the model has one numeric type)
+    if all(x.denominator == 1 for x in v):
+        vi = [int(x) for x in v]
+        alt = [
+            py(lambda: pc.get_peak_array_indices(vi)),
+            py(lambda: pc.get_peak_array_indices(np.array(vi, dtype=int), ptype='max')),
+            py(lambda: pc.get_peak_array_indices(vi, ptype='min')),
+            py(lambda: pc.get_n_cyc_array(vi, opt='all', start='origin')),
+            py(lambda: pc.get_n_cyc_array(np.array(vi, dtype=int), opt='all', start='peak')),
+            py(lambda: pc.determine_peaks_only_delta_series(np.array(vi, dtype=int))),
+            py(lambda: pc.determine_pseudo_cyclic_peak_only_series(vi)),
+            py(lambda: pc.determine_peak_only_delta_series_4_cleaned_data(np.array(vi, dtype=int))),
+            py(lambda: pc._determine_peak_only_series_4_cleaned_data(np.array(vi, dtype=int))),
+        ]
+        for nm, a, e in zip(names, alt, exp):
+            if a != e:
+                ndtype += 1
+                if ndtype < 10: print('DTYPE-DIFF', nm, vi, 'int/list', a, 'float', e)
     for nm, g, e in zip(names, got, exp):
         ncmp += 1
         ok = g[0] == e[0]
@@ -80,4 +98,4 @@ for v, line in zip(inputs, lines):
         if not ok:
             nbad += 1
             if nbad < 20: print('MISMATCH', nm, va, 'lean', g, 'py', e)
-print(f"inputs {len(inputs)} lines {len(lines)} comparisons {ncmp} (of which both-raise {nerr}) mismatches {nbad}")
+print(f"inputs {len(inputs)} lines {len(lines)} comparisons {ncmp} (of which both-raise {nerr}) mismatches {nbad}; int/list-vs-float differences {ndtype}")
